@@ -186,8 +186,7 @@ Contexts(shape, cols, flags) == [i \in DOMAIN cols[1] |-> Layout(shape, cols, fl
 -----------------------------------------------------------------------------
 (* cases.  c.f = "scale": shape, cols, sh, sc, using;  c.f = "impute": shape, cols, stats, ind, using *)
 CONSTANTS Family,      \* which family of cases this run enumerates (a string, see Init)
-          MaxRows,     \* rows of the one-feature data sets
-          MaxRows2,    \* rows of the two-feature data sets
+          MinRows, MaxRows, \* rows of the data sets of this run
           NumsS, NumsI,\* the numbers in Scale / Impute data
           Usings,      \* the windows of the one-feature data sets (0 = None = all)
           Lite         \* TRUE: fewer given numbers and fewer lists of statistics (quick tier)
@@ -232,25 +231,25 @@ TwoCols(A, n) == UNION {{<<a, b>>, <<b, a>>} : a \in ColsOf(A, n), b \in Comp(n)
 
 Init ==
   /\ go = FALSE
-  /\ \E n \in 1..MaxRows :
-       \/ /\ Family = "scale1"     \* one feature: dense and scalar
-          /\ \E shape \in {"dense", "scalar"} : \E a \in ColsOf(AlphaS, n) : \E sh \in Shifts : \E sc \in Scales : \E u \in Usings :
+  /\ \E n \in MinRows..MaxRows :
+       \/ /\ Family \in {"scale1d", "scale1v"}     \* one feature: dense or scalar (value) contexts
+          /\ \E shape \in {IF Family = "scale1d" THEN "dense" ELSE "scalar"} : \E a \in ColsOf(AlphaS, n) : \E sh \in Shifts : \E sc \in Scales : \E u \in Usings :
                c = ScaleCase(shape, <<a>>, sh, sc, u)
        \/ /\ Family = "scale1s"    \* one feature, sparse (keys may be absent)
           /\ \E a \in ColsOf(AlphaS \cup {Abs}, n) : \E sc \in Scales : \E u \in Usings :
                c = ScaleCase("sparse", <<a>>, Const(0, 1), sc, u)
        \/ /\ Family = "scale2"     \* two features
-          /\ n >= 2 /\ n <= MaxRows2
+          /\ n >= 2
           /\ \E shape \in {"dense", "sparse"} : \E cols \in TwoCols(AlphaS \ {NaN}, n) : \E sh \in Shifts : \E sc \in Scales : \E u \in Usings2 :
                c = ScaleCase(shape, cols, sh, sc, u)
-       \/ /\ Family = "impute1"
-          /\ \E shape \in {"dense", "scalar"} : \E a \in ColsOf(AlphaI, n) : \E st \in StatLists : \E ind \in BOOLEAN : \E u \in Usings :
+       \/ /\ Family \in {"impute1d", "impute1v"}
+          /\ \E shape \in {IF Family = "impute1d" THEN "dense" ELSE "scalar"} : \E a \in ColsOf(AlphaI, n) : \E st \in StatLists : \E ind \in BOOLEAN : \E u \in Usings :
                c = ImputeCase(shape, <<a>>, st, ind, u)
        \/ /\ Family = "impute1s"
           /\ \E a \in ColsOf(AlphaI \cup {Abs}, n) : \E st \in StatLists : \E ind \in BOOLEAN : \E u \in Usings :
                c = ImputeCase("sparse", <<a>>, st, ind, u)
        \/ /\ Family = "impute2"
-          /\ n >= 2 /\ n <= MaxRows2
+          /\ n >= 2
           /\ \E shape \in {"dense", "sparse"} : \E cols \in TwoCols(AlphaI \ {Str(2)}, n) : \E st \in StatLists : \E ind \in BOOLEAN : \E u \in Usings2 :
                c = ImputeCase(shape, cols, st, ind, u)
   /\ InDomain(c)
